@@ -130,8 +130,8 @@ CLAIMED = {
              "split at the blank) returns the rows in order. np.loadtxt's text->nearest-double step is outside the model; the one-ulp "
              "effect it causes for 4096<=|v|<8192 is a recorded known finding (F9a). Re-ingestion of a written S(Q) is checked by the "
              "oracle on the real code."
-             " SECOND TIE (this property's part of stog.py is also *regenerated* on every run by tools/translate_stog.py and proved equal to the hand model; when the translator refuses a construct the check falls back to hand model + correspondence and says so in the evidence): Props/C18Gen: for the eight generated write_out_* methods the writer table (dictionary pair, title, default name = stem + extension, explicit name wins, KeyError when the curve is absent, nothing else changed).", ref="8 (C18), 5",
-             tech="writer table on code generated from stog.py + Lean 4 theorems (digit round trips, rational rounding bound) on a hand-written model + byte-exact correspondence (partial)"),
+             " SECOND TIE (this property's part of stog.py is also *regenerated* on every run by tools/translate_stog.py and proved equal to the hand model; when the translator refuses a construct the check falls back to hand model + correspondence and says so in the evidence): Props/C18Gen: for the eight generated write_out_* methods the writer table (dictionary pair, title, default name = stem + extension, explicit name wins, KeyError when the curve is absent, nothing else changed). _write_out_to_file itself is regenerated as the text it writes (with-open blocks in order, every literal, the %d header, the field order of the row format and the default places=12 read from the source) and proved equal to the hand model's file (Refine/Writer.lean); with Proofs/WriterText (no line contains a newline, so the flat text splits back into the model's lines) the read-back, header and 5e-13 theorems are restated for the generated text (P_gen_text, P_gen_read_write, P_gen_header, P_gen_read_back_value); the generated text function runs at the same inputs as a twin of every byte-exact correspondence request.", ref="8 (C18), 5, 26",
+             tech="writer table and file text on code generated from stog.py + Lean 4 theorems (digit round trips, rational rounding bound) on a hand-written model + byte-exact correspondence (partial)"),
  "C12": dict(text="Theorems on the hand-written workflow state machine whose numeric content is the generated code: each step stores the "
              "named Transformer/FourierFilter/Converter call with the option dictionary the code builds; no step overwrites the "
              "merged curve (frame); filter before = filter after the explicit transform; every step is idempotent in every state; by "
